@@ -33,6 +33,15 @@ def make_world(wid, rng):
             k += 1
             ids.append('t%d' % k)
             tests['t%d' % k] = {}
+        if rng.random() < 0.3:
+            # parametrised instances of one test method: equal for unittest
+            # (same class, same method name), different tests all the same
+            first = ids[0]
+            tests[first] = {'name': 'test_' + first, 'param': 0}
+            for p in range(1, rng.choice([2, 3, 4])):
+                k += 1
+                tests['t%d' % k] = {'name': 'test_' + first, 'param': p}
+                ids.insert(rng.randint(1, len(ids)), 't%d' % k)
         c = {'tests': ids}
         if l:
             c['layer'] = l
@@ -89,6 +98,8 @@ def bundle(bid, rng, seed, tier):
         add('list', 'inproc', sargs + ['--list-tests'])
         add('seq', 'inproc', sargs)
         add('j', 'cli', sargs + ['-j', str(rng.choice([2, 3]))])
+        # listing while -j is given (no child is started for a listing)
+        add('j:list', 'inproc', sargs + ['--list-tests', '-j', str(rng.choice([2, 3]))])
         # "on every supported Python version": the other CPythons of the sandbox
         vers = sorted(runlib.OTHER_PYTHONS)
         for ver in (vers if tier != 'quick' else rng.sample(vers, min(2, len(vers)))):
